@@ -414,8 +414,15 @@ func (verifTopics) Delete(topic string, isChan, hard bool) error {
 type verifUsers struct{}
 
 func (verifUsers) Create(user *types.User, private interface{}) (*types.User, error) {
-	verifUnexpected("Users.Create")
-	return nil, nil
+	if err := verifStore.mutate("Users.Create"); err != nil {
+		return nil, err
+	}
+	// like the real mapper: assign an id and the time stamps, then store
+	user.SetUid(types.Uid(4242))
+	user.InitTimes()
+	cp := *user
+	verifStore.users[user.Uid()] = &cp
+	return user, nil
 }
 func (verifUsers) GetAuthRecord(user types.Uid, scheme string) (string, auth.Level, []byte, time.Time, error) {
 	verifUnexpected("Users.GetAuthRecord")
